@@ -5,6 +5,15 @@ open Strax
 
 def rawChunksToChunks (rs : List RawChunk) : Except Err (List Chunk) := rs.mapM (·.mk')
 
+/-- `continuity_check` consumed to exhaustion: number of chunks yielded, and the error that stopped
+the generator (if any).  Same `contStep` as `continuityCheck`, which only keeps the error. -/
+def contRun : ContState → List Chunk → Nat → Nat × Option Err
+  | _, [], n => (n, none)
+  | s, c :: cs, n =>
+    match contStep s c with
+    | .error e => (n, some e)
+    | .ok s' => contRun s' cs (n + 1)
+
 /-- ops of theories T1/T2 (chunk algebra). -/
 def handleC07 : List String → Option String
   | ["split", rows, t, early] => do
@@ -38,7 +47,12 @@ def handleC07 : List String → Option String
       (rawChunksToChunks cs >>= fun cs => rechunkAll Generated.getSplitsArgmin0 ⟨true, s, none⟩ cs)
   | "continuity" :: cs => do
     let cs ← cs.mapM parseRawChunk
-    pure <| showExcept (fun _ => "-") (rawChunksToChunks cs >>= continuityCheck)
+    pure <| match rawChunksToChunks cs with
+      | .error e => s!"err {e.name} -"
+      | .ok cs =>
+        match contRun {} cs 0 with
+        | (n, none) => s!"ok {n}"
+        | (n, some e) => s!"err {e.name} {n}"
   | _ => none
 
 end Strax.Driver
